@@ -38,8 +38,11 @@ func (c *dupImportChecker) WalkFile(f *ast.File) {
 		imports[pkg] = append(imports[pkg], importDcl)
 	}
 
-	for _, importList := range imports {
-		if len(importList) == 1 {
+	// Report in the source order of the first import of every group:
+	// map iteration order would make the warnings order unstable.
+	for _, importDcl := range f.Imports {
+		importList := imports[importDcl.Path.Value]
+		if len(importList) == 1 || importList[0] != importDcl {
 			continue
 		}
 		c.warn(importList)
